@@ -556,18 +556,7 @@ pub fn run(tier: Tier) -> i32 {
     rep.set_rule("A: closure of the product real Encapsulator x real Decapsulator (lock-step, every successfully produced packet fed at once) under send(label in {three 6-byte (two sharing their first three bytes), three 3-byte (one equal to that prefix, one all-zero), broadcast, explicit re-use} x how in {complete, complete via encap_ext, first fragment on id 0/1 via encap and encap_ext, a first fragment into a 10-byte buffer (possible only without label bytes on the wire, leaves 5 bytes), fail: small buffer / PDU too long / protocol type, encap_ext fail}), zero label, continue(id) (end fragment of an open train), reset of both sides, disable, enable, enable-with-max(1,2,3,255), and receiver-side noise (rejected intermediate / end fragments of unknown ids interleaved at any point); ghost = label intended per PDU and what the wire carried; B: closure of the receiver alone under 35 packets, with two and with one storage buffer (so that start packets are also rejected for lack of storage), (complete and first fragments of every label kind incl. re-use, continuation packets of known/unknown ids, rejected and malformed start packets, padding) and reset; oracle: a resolved re-use label equals the label of the nearest preceding start/complete packet of the frame. distinct = (op, outcome)");
     rep.assume("A: both label memories are reset at the same points; receiver storage is kept sufficient by re-provisioning delivered buffers; trains have 2 fragments");
     rep.assume("B: a start/complete packet whose label cannot be read (truncated, malformed) counts as carrying an unknown label: nothing may be resolved from before it; padding does not end the frame for the oracle (weaker than the crate, which clears its memory)");
-    // both tiers explore the product to closure
-    let mut asys = a_sys(true);
-    if !tier.thorough() {
-        // the quick tier leaves out the 3-byte label equal to the 6-byte labels' prefix (8 -> 7 letters)
-        asys.labels.retain(|l| *l != L3B);
-    }
-    let ex = explore(&asys, &Limits { max_states: if tier.thorough() { 6_000_000 } else { 1_200_000 }, max_depth: 10_000 }, &rep, "A sender x receiver");
-    if !ex.closed {
-        rep.cap("A did not close under the state cap");
-    }
-    let i = ex.states.len() - 1;
-    rep.sample(1, || json!({"model": "A", "history": ex.path(i).iter().map(|o| format!("{:?}", o)).collect::<Vec<_>>()}));
+    // B first: it closes within a second or two, A takes most of the time
     let bsys = b_sys();
     let exb = explore(&bsys, &Limits { max_states: 3_000_000, max_depth: 10_000 }, &rep, "B receiver alone");
     if !exb.closed {
@@ -581,5 +570,18 @@ pub fn run(tier: Tier) -> i32 {
     }
     let i = exb.states.len() - 1;
     rep.sample(2, || json!({"model": "B", "history": exb.path(i).iter().map(|o| bsys.op_json(o)).collect::<Vec<_>>()}));
+    // both tiers explore the product to closure
+    let mut asys = a_sys(true);
+    if !tier.thorough() {
+        // the quick tier leaves out the 3-byte label equal to the 6-byte labels' prefix and the unrelated second 6-byte
+        // label (8 -> 6 letters: the prefix twin L6P is 'another 6-byte label' as well)
+        asys.labels.retain(|l| *l != L3B && *l != L6B);
+    }
+    let ex = explore(&asys, &Limits { max_states: if tier.thorough() { 6_000_000 } else { 1_200_000 }, max_depth: 10_000 }, &rep, "A sender x receiver");
+    if !ex.closed {
+        rep.cap("A did not close under the state cap");
+    }
+    let i = ex.states.len() - 1;
+    rep.sample(1, || json!({"model": "A", "history": ex.path(i).iter().map(|o| format!("{:?}", o)).collect::<Vec<_>>()}));
     rep.finish(true)
 }
